@@ -46,6 +46,10 @@ def r13_1(ctx):
             t = n.targets[0]
             if isinstance(t, ast.Tuple) and len(t.elts) == 1:
                 unp_target = ast.unparse(t.elts[0])
+        elif isinstance(n, ast.Assign) and isinstance(n.value, ast.Subscript) and n.value.value is unpacks[0] and \
+                isinstance(n.value.slice, ast.Constant) and n.value.slice.value == 0 and \
+                isinstance(n.targets[0], ast.Name):
+            unp_target = n.targets[0].id        # size = unpack(...)[0]
     ok = unp_target is not None and ast.unparse(pay[1].args[0]) == unp_target and \
         rb.cfg.dominated_by(pay[0], [hdr[0]], completed=True)[0]
     ctx.ob('R13.1', 'payload-read-size-is-unpacked-length', ok, rb, pay[1], 'size, = unpack(...); self._recv(size)')
